@@ -1171,6 +1171,10 @@ static int btls_receive(struct xcm_socket *__restrict s, void *__restrict buf,
     bts->conn.ssl_condition = 0;
     bts->conn.ssl_wants = 0;
 
+    /* SSL_read() takes an int */
+    if (capacity > INT_MAX)
+	capacity = INT_MAX;
+
     UT_SAVE_ERRNO;
     int rc = SSL_read(bts->conn.ssl, buf, capacity);
     UT_RESTORE_ERRNO(read_errno);
